@@ -15,50 +15,13 @@ from odfdo.element import Element
 from odfdo.manifest import Manifest
 from vlib.hk import done
 
-MANIFEST_XML = (
-    '<manifest:manifest><manifest:file-entry manifest:full-path="/" manifest:media-type="application/vnd.oasis.opendocument.text"/>'
-    '<manifest:file-entry manifest:full-path="content.xml" manifest:media-type="text/xml"/></manifest:manifest>'
-)
+from memdoc import memdoc
+
 NAMES = ["a.png", "b.png"]
 
 
-class FakeContainer:
-    """dict-backed stand-in for odfdo.container.Container: part name -> bytes, None = deleted"""
-
-    def __init__(self):
-        self._parts = {"content.xml": b"<x/>", "mimetype": b"application/vnd.oasis.opendocument.text"}
-
-    def set_part(self, path, data):
-        self._parts[path] = data
-
-    def del_part(self, path):
-        self._parts[path] = None
-
-    @property
-    def parts(self):
-        # like Container.get_parts() of an in-memory container: every known name, deleted ones included
-        return list(self._parts.keys())
-
-    def present(self):
-        return [k for k, v in self._parts.items() if v is not None]
-
-    def __bool__(self):
-        return True
-
-
-class Doc(Document):
-    def __init__(self):
-        self.container = FakeContainer()
-        m = Manifest.__new__(Manifest)
-        m.part_name = "META-INF/manifest.xml"
-        m.container = self.container
-        m._XmlPart__tree = ET._ElementTree(Element.from_tag(MANIFEST_XML)._Element__element)
-        m._XmlPart__root = None
-        self._m = m
-
-    @property
-    def manifest(self):
-        return self._m
+def Doc():
+    return memdoc()
 
 
 def consistent(doc):
